@@ -10,7 +10,8 @@ EXPLANATION = ("C15: NNG_FLAG_NONBLOCK is plumbed to a zero timeout and mapped b
                "calls nni_aio_start on a path on which it then completes the same aio successfully (a zero-timeout caller "
                "would be refused although the operation could complete); every critical section that mutates a field a "
                "pollable's readiness is computed from re-evaluates that pollable after the last such mutation; pollable "
-               "raise/clear only write the notification pipe on a state change.")
+               "raise/clear only write the notification pipe on a state change."
+               " Also: a pollable is cleared only under a test of what it stands for (R5) and every locked change of a msgq re-evaluates its descriptors (R6).")
 
 OP_SLOTS = ("nni_proto_sock_ops.sock_send", "nni_proto_sock_ops.sock_recv", "nni_proto_ctx_ops.ctx_send",
             "nni_proto_ctx_ops.ctx_recv")
